@@ -770,5 +770,88 @@ func init() {
 				c05Raw(c, "geojson(literal)", []byte(ws[0]+s+ws[1]), c05JSONDecs)
 			}
 		}
+		// blank and almost blank values of every short length (a padded CHAR column, an empty text field): white space
+		// only, or with one other byte at the front, in the middle or at the end - for the scanners, the WKT parsers
+		// and the JSON entry points
+		wktEvery := map[string]func([]byte) error{"wkt.Unmarshal": func(b []byte) error { _, err := wkt.Unmarshal(string(b)); return err }}
+		for _, p := range c05WktParsers {
+			p := p
+			wktEvery["wkt."+p.name] = func(b []byte) error { return p.f(string(b)) }
+		}
+		for n := 0; n <= 12; n++ {
+			for _, sp := range []byte{' ', '\t', '\n', '\r'} {
+				blank := bytes.Repeat([]byte{sp}, n)
+				c05Raw(c, "wkb(blank)", blank, wkbAll)
+				c05Raw(c, "wkt(blank)", blank, wktEvery)
+				c05Raw(c, "geojson(blank)", blank, c05JSONDecs)
+				if n == 0 || sp == '\r' {
+					continue
+				}
+				for _, other := range []byte{'\\', '0', '1', 'x', 0, 1, 'P', '{', '('} {
+					for _, at := range []int{0, n / 2, n - 1} {
+						b := append([]byte{}, blank...)
+						b[at] = other
+						c05Raw(c, "wkb(blank)", b, wkbAll)
+						c05Raw(c, "wkt(blank)", b, wktEvery)
+					}
+				}
+			}
+		}
+		// many genuine members followed by nothing, under a count that claims (far) more: allocation follows the bytes
+		// that are there, also once the library's preallocation cap has been used up
+		for _, le := range []bool{true, false} {
+			var bo binary.ByteOrder = binary.BigEndian
+			if le {
+				bo = binary.LittleEndian
+			}
+			hdr := func(typ, cnt uint32) []byte {
+				h := make([]byte, 9)
+				if le {
+					h[0] = 1
+				}
+				bo.PutUint32(h[1:], typ)
+				bo.PutUint32(h[5:], cnt)
+				return h
+			}
+			u32 := func(v uint32) []byte { b := make([]byte, 4); bo.PutUint32(b, v); return b }
+			members := []struct {
+				typ    uint32
+				member []byte
+			}{
+				{2, make([]byte, 16)},                           // line string: points
+				{3, u32(0)},                                     // polygon: empty rings
+				{3, append(u32(1), make([]byte, 16)...)},        // polygon: one-point rings
+				{4, append(hdr(1, 0)[:5], make([]byte, 16)...)}, // multi point: points with their own header
+				{5, hdr(2, 0)},                                  // multi line string: empty line strings
+				{6, hdr(3, 0)},                                  // multi polygon: empty polygons
+				{7, hdr(2, 0)},                                  // collection: empty line strings
+				{7, hdr(7, 0)},                                  // collection: empty collections
+			}
+			for _, m := range members {
+				for _, n := range []int{99, 100, 101, 102, 128, 257, 1000} {
+					for _, claim := range []uint32{uint32(n) + 1, 1 << 16, 1 << 22, 1<<31 - 1, 1<<32 - 1} {
+						b := hdr(m.typ, claim)
+						for i := 0; i < n; i++ {
+							b = append(b, m.member...)
+						}
+						c05Raw(c, "wkb(claimed)", b, wkbAll)
+						// ... and the same thing as the only member of a multi polygon / a collection
+						if m.typ == 3 {
+							c05Raw(c, "wkb(claimed)", append(hdr(6, 1), b...), wkbAll)
+						}
+						c05Raw(c, "wkb(claimed)", append(hdr(7, 1), b...), wkbAll)
+					}
+				}
+			}
+		}
+		// text that is almost WKT: the extended spellings other tools write (an SRID in front, a dimension suffix), complete
+		// and cut short
+		for _, pre := range []string{"SRID=4326;", "SRID=4326", "SRID=4326 ", "SRID=", "srid=4326;", " SRID=4326;", "SRID=;", "SRID=4326;;", "SRID=4326;SRID=1;", ";", "SRID"} {
+			for _, body := range []string{"POINT(1 2)", "POINT EMPTY", "", "GEOMETRYCOLLECTION(POINT(1 2))", "POLYGON((0 0,1 0,1 1,0 0))", "POINT Z(1 2 3)", "POINT(1 2 3)", "POINTZ(1 2 3)", "LINESTRING M(1 2 3,4 5 6)"} {
+				c05Raw(c, "wkt(extended)", []byte(pre+body), wktEvery)
+				c05Raw(c, "wkt(extended)", []byte("GEOMETRYCOLLECTION("+pre+body+")"), wktEvery)
+				c05Raw(c, "wkt(extended)", []byte("GEOMETRYCOLLECTION(POINT(1 2),"+pre+body+")"), wktEvery)
+			}
+		}
 	})
 }
